@@ -107,6 +107,9 @@ func (h *Hist) begin(op string, owners ...string) {
 	h.curOp = op
 	h.curOwner = owners
 	if h.unchecked == 0 {
+		if len(h.dirty) > 0 {
+			h.prevDirty = h.dirty
+		}
 		h.dirty = map[int]bool{}
 	} // (otherwise: a stretch without full reads is in progress, what it may change accumulates)
 	h.counters["op:"+op]++
@@ -1060,6 +1063,58 @@ var getterKinds = []Kind{KObj, KList, KString, KBool, KInt, KFloat}
 // container — an index, a sorted listing, a summary, a memoised text — has to follow every kind of mutation. With
 // independently drawn operations the exact order "read, write that slot, read the same thing" is rare, above all on the
 // bigger containers where such state usually begins to exist.
+// opSummaries: the homogeneity assertions and the integer aggregates of a list, against the model (what they say is a function
+// of the elements alone; an implementation may keep a summary inside the list, which then has to follow every mutation and
+// must not be shared with clones or derived lists).
+func opSummaries(h *Hist) {
+	n := h.pickList()
+	if n == nil {
+		return
+	}
+	h.begin("Summaries", h.ownerOf(n)...)
+	var want [7]bool
+	for i := range want {
+		want[i] = true
+	}
+	sum, prod := 0, 1
+	for _, v := range n.Elems {
+		want[0] = want[0] && v.K == KObj
+		want[1] = want[1] && v.K == KList
+		want[2] = want[2] && v.K == KString
+		want[3] = want[3] && v.K == KBool
+		want[4] = want[4] && v.K == KInt
+		want[5] = want[5] && v.K == KFloat
+		want[6] = want[6] && (v.K == KInt || v.K == KFloat)
+		if v.K == KInt {
+			sum += v.I
+			prod *= v.I
+		}
+	}
+	names := []string{"AllObjects", "AllLists", "AllStrings", "AllBools", "AllInts", "AllFloats", "AllNumeric"}
+	var got [7]bool
+	var gotSum, gotProd int
+	l := n.list()
+	p, msg := h.call(func() {
+		got = [7]bool{l.AllObjects(), l.AllLists(), l.AllStrings(), l.AllBools(), l.AllInts(), l.AllFloats(), l.AllNumeric()}
+		gotSum, gotProd = l.IntSum(), l.IntProd()
+	})
+	h.tracef("%s summaries %v sum=%d panicked=%v", n.Name, got, gotSum, p)
+	if !h.mustNotPanic(p, msg) {
+		return
+	}
+	for i := range want {
+		if got[i] != want[i] {
+			h.fail("result", names[i], h.curOwner, fmt.Sprintf("%s.%s() = %v, the elements say %v: %s", n.Name, names[i], got[i], want[i], n.render(0)))
+			return
+		}
+	}
+	if gotSum != sum || gotProd != prod {
+		h.fail("result", "IntSum", h.curOwner, fmt.Sprintf("%s.IntSum()/IntProd() = %d/%d, the elements say %d/%d", n.Name, gotSum, gotProd, sum, prod))
+		return
+	}
+	h.heapCheck()
+}
+
 // (filled by init: histOps itself refers to opSandwich)
 var histOpsRef []histOp
 
@@ -1070,15 +1125,31 @@ func opSandwich(h *Hist) {
 	}
 	has := func(name string) bool { return vocab[h.prop][name] > 0 }
 	var observers, mutators []histOp
+	deriving := map[string]bool{}
 	for _, o := range histOpsRef {
 		switch o.name {
+		case "Summaries":
+			if !n.IsObj {
+				observers = append(observers, o)
+			}
 		case "Search", "Get", "TypeOf", "PureCalls", "Export", "GetTF", "ForEachVariants":
 			if has(o.name) {
 				observers = append(observers, o)
 			}
-		case "KeysValues":
+		case "KeysValues", "Pluck", "Merge", "ObjMap":
 			if has(o.name) && n.IsObj {
 				observers = append(observers, o)
+				deriving[o.name] = true
+			}
+		case "SubList", "Concat", "MapFilter":
+			if has(o.name) && !n.IsObj {
+				observers = append(observers, o)
+				deriving[o.name] = true
+			}
+		case "Clone":
+			if has(o.name) {
+				observers = append(observers, o)
+				deriving[o.name] = true
 			}
 		case "Add", "Insert", "Replace", "Delete", "Pop", "Reverse", "Sort":
 			if has(o.name) && !n.IsObj {
@@ -1121,12 +1192,80 @@ func opSandwich(h *Hist) {
 			}
 		}
 	}
+	h.repeatPath = nil
+	before := len(h.nodes)
 	obs.f(h)
-	for i, k := 0, 1+h.d.Draw("sandwich-mutations", 3); i < k && !h.dead && n.Impl != nil; i++ {
-		mutators[h.d.Draw("sandwich-mutator", len(mutators))].f(h)
-	}
-	if !h.dead && n.Impl != nil {
+	target := n
+	mode := h.d.Draw("sandwich-target", 4)
+	switch {
+	case mode == 0 && deriving[obs.name] && !h.dead:
+		// the observer hands out a new container: observe once more (an unmodified second call is where memoised results
+		// start to be served), modify what was handed out, and observe again
 		obs.f(h)
+		if len(h.nodes) > before && !h.dead {
+			for i := len(h.nodes) - 1; i >= before; i-- {
+				if r := h.nodes[i]; r.Impl != nil && r.Derived == 0 && (r.Op == obs.name || deriving[r.Op] || i == before) {
+					target = r
+					break
+				}
+			}
+			h.counters["probe:sandwich-result-modified"]++
+		}
+	case mode == 1:
+		// the mutation happens further down, in a container the observed one holds (a cache at the top does not see it)
+		var below []*Node
+		for _, x := range sortedNodes(reach(n)) {
+			if x != n && x.Impl != nil && x.Derived == 0 {
+				below = append(below, x)
+			}
+		}
+		if len(below) > 0 {
+			target = below[h.d.Draw("sandwich-below", len(below))]
+			h.counters["probe:sandwich-nested-modified"]++
+		}
+	}
+	h.force = target
+	if target != n {
+		h.hintIndex = -1
+	}
+	var ms []histOp
+	for _, m := range mutators {
+		switch m.name {
+		case "Add", "Insert", "Replace", "Delete", "Pop", "Reverse", "Sort":
+			if !target.IsObj {
+				ms = append(ms, m)
+			}
+		case "Set", "Unset":
+			if target.IsObj {
+				ms = append(ms, m)
+			}
+		default:
+			ms = append(ms, m)
+		}
+	}
+	if target.IsObj != n.IsObj {
+		// (the mutator list was drawn up for the observed container's kind)
+		for _, o := range histOpsRef {
+			switch o.name {
+			case "Add", "Insert", "Replace", "Delete", "Pop", "Reverse", "Sort":
+				if has(o.name) && !target.IsObj {
+					ms = append(ms, o)
+				}
+			case "Set", "Unset":
+				if has(o.name) && target.IsObj {
+					ms = append(ms, o)
+				}
+			}
+		}
+	}
+	for i, k := 0, 1+h.d.Draw("sandwich-mutations", 3); len(ms) > 0 && i < k && !h.dead && target.Impl != nil; i++ {
+		ms[h.d.Draw("sandwich-mutator", len(ms))].f(h)
+	}
+	h.force = n
+	if !h.dead && n.Impl != nil {
+		h.repeatPath = h.lastPath // a tree-form read takes the same path again where it still resolves
+		obs.f(h)
+		h.repeatPath = nil
 	}
 }
 
